@@ -430,6 +430,7 @@ struct Collect {
     blocks_open: Vec<usize>,
     enum_loops: Vec<EnumLoop>,
     plain_loops: Vec<(usize, usize, usize, usize, usize, usize)>, // for_start, pat_start, pat_end, expr_start, expr_end, body_open_end
+    path_loops: Vec<(usize, usize, usize, usize, usize, usize)>, // same, for `for x in VARIABLE`
     rev_loops: Vec<(usize, usize, usize, usize, usize, usize, usize, usize, usize)>, // for_start, pat_start, pat_end, expr_end, lo_start, lo_end, hi_start, hi_end, body_open_end
     compound: Vec<(usize, usize, usize, usize, usize, String)>,
     compound_idx: Vec<(usize, usize, usize, usize, usize, usize, String, usize, usize, usize)>, // base start/end, index start/end, rhs start/end, op path, left end, op start/end
@@ -534,6 +535,11 @@ impl<'ast> Visit<'ast> for Collect {
                     }
                 }
             }
+        }
+        if let (syn::Pat::Ident(_), syn::Expr::Path(_)) = (&*e.pat, &*e.expr) {
+            let (ps, pe) = br(e.pat.span());
+            let (es, ee) = br(e.expr.span());
+            self.path_loops.push((br(e.for_token.span).0, ps, pe, es, ee, br(e.body.brace_token.span.open()).1));
         }
         if let (syn::Pat::Ident(_), syn::Expr::MethodCall(mc)) = (&*e.pat, &*e.expr) {
             if mc.method != "enumerate" && !is_rev_range {
@@ -1120,11 +1126,21 @@ fn finish(
             let base = norm(&src[*bs..*be]);
             let idx_txt = &src[*is_..*ie];
             if names.contains(&base) || (all2d && idx_txt.trim_start().starts_with('[')) {
+                if req["hoist"].as_bool().unwrap_or(false) {
+                    // a[idx] = rhs   ->   { let vx_v = rhs; a.vx_set(idx, vx_v) }   (Rust evaluates the right-hand side before the
+                    // indexed place, so this is the language's own order; needed when `a` is a `&mut` parameter read inside rhs)
+                    let base_txt = src[*bs..*be].to_string();
+                    let idx_txt = src[*is_..*ie].to_string();
+                    cx.rep(*bs, *rs, "{ let vx_v = ");
+                    cx.ins(*re, &format!("; {}.vx_set({}, vx_v) }}", base_txt, idx_txt), false);
+                    cx.count("R2(index assignment -> { let v = rhs; vx_set(idx, v) })");
+                } else {
                 // a[idx] = rhs   ->   a.vx_set(idx, rhs)
                 cx.rep(*be, *is_, ".vx_set(");
                 cx.rep(*ie, *rs, ", ");
                 cx.ins(*re, ")", false);
                 cx.count("R2(index assignment -> vx_set)");
+                }
             }
         }
         for (bs, be, is_, ie, rs, re, path, _le, _os, _oe) in &col.compound_idx {
@@ -1213,6 +1229,18 @@ fn finish(
             cx.count("R10c(for x in ITER -> let items = ITER.collect(); for i in 0..items.len() { let x = items[i]; .. })");
         }
     }
+    // R10c'': `for x in V` over an owned collection variable -> index loop by reference (items are only read)
+    if req["r10c"].as_bool().unwrap_or(false) {
+        let base = col.plain_loops.len();
+        for (k0, (fs, ps, pe, es, ee, bo)) in col.path_loops.iter().enumerate() {
+            let k = base + k0;
+            let x_txt = src[*ps..*pe].to_string();
+            cx.rep(*fs, *es, &format!("let vx_seq_{} = ", k));
+            cx.ins(*ee, &format!("; let vx_n_{k} = vx_seq_{k}.len(); for vx_i_{k} in 0..vx_n_{k}", k = k), false);
+            cx.ins(*bo, &format!(" let {} = &vx_seq_{}[vx_i_{}];", x_txt, k, k), false);
+            cx.count("R10c(for x in V -> let items = V; for i in 0..items.len() { let x = &items[i]; .. })");
+        }
+    }
     // explicit token substitutions
     if let Some(subs) = req["subst"].as_array() {
         let region_ts: TokenStream = src[region_start..region_end].parse().map_err(|e| format!("region tokenise: {}", e))?;
@@ -1223,6 +1251,7 @@ fn finish(
         let lead = src[region_start..region_end].len() - src[region_start..region_end].trim_start().len();
         let shift = region_start as isize + lead as isize - first as isize;
         let mut taken: Vec<(usize, usize)> = cx.edits.iter().filter(|e| e.end > e.start).map(|e| (e.start, e.end)).collect();
+        let mut subst_taken: Vec<(usize, usize)> = Vec::new();
         for s in subs {
             let old = s[0].as_str().ok_or("subst old")?;
             let new = s[1].as_str().ok_or("subst new")?;
@@ -1237,10 +1266,20 @@ fn finish(
                     let st = (toks[i].1 as isize + shift) as usize;
                     let en = (toks[i + pat.len() - 1].2 as isize + shift) as usize;
                     if taken.iter().any(|(a, b)| st < *b && *a < en) {
-                        // already rewritten by an earlier substitution of this item
-                        i += 1;
-                        continue;
+                        // overlaps earlier rewrites.  If every overlapping edit (rule rewrites such as R1/R2 inside the matched
+                        // text) lies entirely inside the match, the substitution replaces the whole text and those edits are dropped;
+                        // otherwise (partial overlap, e.g. an earlier substitution of this item) the match is skipped.
+                        let inside = cx.edits.iter().filter(|e| st < e.end.max(e.start + 1) && e.start < en).all(|e| st <= e.start && e.end <= en)
+                            && taken.iter().filter(|(a, b)| st < *b && *a < en).all(|(a, b)| st <= *a && *b <= en)
+                            && !subst_taken.iter().any(|(a, b)| st < *b && *a < en);
+                        if !inside {
+                            i += 1;
+                            continue;
+                        }
+                        cx.edits.retain(|e| !(st <= e.start && e.end <= en && (e.start < en)));
+                        taken.retain(|(a, b)| !(st <= *a && *b <= en));
                     }
+                    subst_taken.push((st, en));
                     taken.push((st, en));
                     cx.rep(st, en, new);
                     n += 1;
